@@ -216,6 +216,8 @@ inductive Op where
   | delete (h : Nat)                                    -- MATCH (n {h}) DELETE n
   | addLabel (h l : Nat)                                -- MATCH (n {h}) SET n:l
   | removeLabel (h l : Nat)                             -- MATCH (n {h}) REMOVE n:l
+  | noop (tag : Nat)                                    -- a statement that must not concern constraints:
+                                                        -- DROP INDEX / CREATE INDEX on a (constrained) pair
 deriving DecidableEq, Repr
 
 /-- the property loop of `CreateNodeOperator`: stop at the first refused property -/
@@ -252,6 +254,7 @@ def step (s : State) : Op → State × Bool
     | some s' => (s', true)
     | none => (s, false)
   | .removeLabel h l => (removeLabel s h l, true)
+  | .noop _ => (s, true)
 
 /-- initial population: data that exists before any constraint, however it was loaded -/
 structure Seed where
@@ -331,6 +334,7 @@ def stepLegacy (s : State) : Op → State × Bool
     ({ s with nodes := mapNode (fun x => { x with labels := addLbl x.labels l }) s.nodes h }, true)
   | .removeLabel h l =>
     ({ s with nodes := mapNode (fun x => { x with labels := x.labels.filter (· ≠ l) }) s.nodes h }, true)
+  | .noop _ => (s, true)
 
 def runLegacy (pop : List Seed) (ops : List Op) : State :=
   ops.foldl (fun s op => (stepLegacy s op).1) (init pop)
@@ -397,6 +401,7 @@ def sApply (o : Obs) : Op → Obs
   | .addLabel h l =>
     { o with nodes := sMap (fun x => { x with labels := addLbl x.labels l }) o.nodes h }
   | .removeLabel h l => { o with nodes := sMap (fun x => { x with labels := x.labels.filter (· ≠ l) }) o.nodes h }
+  | .noop _ => o
 
 /-- what remains of a refused statement: nothing, except that a refused CREATE has used up
 its handle -/
